@@ -10,6 +10,7 @@ import Rsactor.Ties.ask_join_shape
 import Rsactor.Ties.send_paths_shape
 import Rsactor.Ties.handle_message_shape
 import Rsactor.Ties.lifecycle_arms
+import Rsactor.Inv.Progress
 
 namespace Rsactor.Props.C03
 open Rsactor Rsactor.Model Rsactor.Monitor
@@ -128,6 +129,26 @@ example : ∃ s, run? (init 1 {})
      .push 0, .recvReply 0] = some s ∧ s.client 0 = .done .receive ∧ s.stranded = [.env 0 .ask] := by
   refine ⟨_, rfl, ?_, ?_⟩ <;> decide
 
+
+/-- `no_operation_left_hanging`: whenever the runtime has nothing left to run (neither the actor's task nor any client
+    operation can take a step) and the actor is idle - parked in its select with an empty mailbox - or has ended,
+    every operation ever issued has returned: no tell or stop() still waits for a slot, no ask still waits for its
+    reply.  A live, idle actor owes nobody an answer; an ended one has failed everything that was pending.  (What can
+    still be outstanding in a quiescent state is exactly the work of a hook that is waiting for its own external
+    event - here: a gate.) -/
+theorem no_operation_left_hanging (cap : Nat) (sc : Script) (ls : List Label) (s : Sys) (hcap : 0 < cap)
+    (hr : run? (init cap sc) ls = some s) (hq : quiescent s) (hidle : s.pc = .parked ∨ s.pc = .ended) (oid : Nat) :
+    s.client oid ≠ .waiting ∧ s.client oid ≠ .awaiting :=
+  quiescent_all_returned cap sc ls s hcap hr hq hidle oid
+
+-- non-vacuity: after a tell and an ask were served the actor is parked, nothing can run, both have returned
+example : ∃ s, run? (init 1 {})
+    [.gate, .startDone, .pollTerm, .pollMail, .pollRun,
+     .issue 0 { kind := .tell }, .push 0, .issue 0 { kind := .ask }, .wake, .pollTerm, .pollMail, .grantWake 1, .push 1, .gate, .handlerDone,
+     .pollTerm, .pollMail, .gate, .handlerDone, .recvReply 1, .pollTerm, .pollMail, .pollRun] = some s ∧
+    s.pc = .parked ∧ Exec.actorLabel s = none ∧ Exec.clientLabel s 0 = none ∧ Exec.clientLabel s 1 = none ∧
+    s.client 0 = .done .ok ∧ s.client 1 = .done (.reply 1) := by
+  refine ⟨_, rfl, ?_⟩; decide
 
 /-! ### ties to the source: shape lemmas about the tables regenerated from /repo on every run -/
 -- @tie Rsactor.Ties.timeout_wrappers_shape
